@@ -113,10 +113,9 @@ func gameRun(cases []string, obs, oracle *common.Out) {
 		var eps []uint8
 		check := func(step int, op string) {
 			if msg := poslib.NaiveInv(p); msg != "" {
-				// after a null move the side "that just moved" made no move; the check clause is judged on real moves only
-				if !(op == "null" && msg == "the side that just moved is in check") {
-					fail("C10", "after op %d (%s): %s", step, op, msg)
-				}
+				// null moves are only generated when the mover is not in check, so every clause is
+				// expected after them too
+				fail("C10", "after op %d (%s): %s", step, op, msg)
 			}
 			if sh := poslib.ScratchHash(p); sh != p.ZobristHash {
 				fail("C09", "after op %d (%s): incremental hash %x, from scratch %x", step, op, p.ZobristHash, sh)
